@@ -514,7 +514,15 @@ class Interp:
         """run ``fn`` on abstract arguments along every path; returns [PathResult]"""
         results = []
         plan = []
+        # every path starts from the same arguments: what one path reads from a one-shot argument (an iterator, a generator's list) is
+        # there again for the next path
+        one_shot = [(a_, list(a_.items), getattr(a_, 'pos', None)) for a_ in list(args) + list((kwargs or {}).values())
+                    if isinstance(a_, IterV) or (isinstance(a_, ListV) and getattr(a_, 'lazy', False))]
         while True:
+            for a_, items_, pos_ in one_shot:
+                a_.items[:] = items_
+                if pos_ is not None:
+                    a_.pos = pos_
             self.plan = list(plan)
             self.trail = []
             self.memo = {}
@@ -1137,7 +1145,7 @@ class Interp:
         if isinstance(obj, CtxV):
             if attr == 'multiline_strategy':
                 return obj.strategy
-            if attr in ('nested_call', 'use_multiline_strategy', 'assoc', 'get', 'set'):
+            if attr in ('nested_call', 'use_multiline_strategy', 'assoc', 'get', 'set', '_replace'):
                 return BoundV(obj, attr)
             if attr in obj.attrs:
                 return obj.attrs[attr]
@@ -2002,6 +2010,20 @@ class Interp:
                 return obj
             if name == 'get':
                 return Sym('%s.get(%s)' % (obj.prov, _prov(args[0])))
+            if name == '_replace' and not args and kwargs and set(kwargs) <= {'depth_left', 'multiline_strategy'}:
+                # the copier with the two fields the public derivation methods set: the depth of this context or one less (what
+                # nested_call gives), any strategy (what use_multiline_strategy gives) - the same abstract context as those calls
+                nested_ = obj.nested
+                okd_ = True
+                if 'depth_left' in kwargs:
+                    dp_ = _prov(kwargs['depth_left']).replace(' ', '').strip('()')
+                    cur_ = '%s.depth_left-%d' % (obj.prov, obj.nested)
+                    if dp_ == cur_ + '-1':
+                        nested_ += 1
+                    elif dp_ != cur_:
+                        okd_ = False
+                if okd_:
+                    return CtxV(obj.prov, nested_, kwargs.get('multiline_strategy', obj.strategy), obj.attrs)
         if isinstance(obj, Const) and type(obj.v).__module__ == 're' and not kwargs and all(isinstance(a, Const) for a in args) \
                 and not name.startswith('_'):
             try:
